@@ -195,6 +195,31 @@ pub fn run(ctx: &Ctx) -> i32 {
     });
     let mut acc = Acc::merge_all(parts);
 
+    // the flag is thread-local state of the library (features.rs): two machines with different
+    // flag values in ONE process, in both orders - nothing process-wide may remember the first
+    let gate_images: Vec<Vec<u16>> = vec![vec![0x3000, 0x1021, 0xD400, 0x1021], vec![0x3000, 0xD400, 0xF025], vec![0x3000, 0xD400, 0xD040, 0xF025]];
+    let parts = pooled(None, 2 * gate_images.len(), 1, Acc::new, |acc, k| {
+        let img = &gate_images[k / 2];
+        let order = if k % 2 == 0 { [true, false, true] } else { [false, true, false] };
+        acc.eval("two-flag-values-in-one-process");
+        for (step, flag) in order.iter().enumerate() {
+            match judge_image(img, *flag, 300) {
+                Ok(None) => {}
+                Err(w) => {
+                    acc.skip(w);
+                    return;
+                }
+                Ok(Some((sig, what))) => {
+                    acc.violation(format!("C18/flag-of-another-machine-leaks/{}/{sig}", if *flag { "on-after-off" } else { "off-after-on" }), format!("machine {} of the process (flag {}), after machines with the other flag value: {what}", step + 1, if *flag { "on" } else { "off" }), json!({"image": img, "order": order}));
+                    return;
+                }
+            }
+        }
+        acc.nontrivial();
+    });
+    for p in parts {
+        acc.merge(p);
+    }
     // programs that use none of the four mnemonics assemble to the same image under both flags
     let mut corpus: Vec<Program> = e1_single_statements(false).into_iter().filter(|c| !c.stack && !c.space.starts_with("E1/fill")).map(|c| c.prog).collect();
     for n in 1..=ctx.tier.pick(3, 5) {
@@ -252,7 +277,7 @@ pub fn run(ctx: &Ctx) -> i32 {
         ctx,
         acc,
         Level { category: "model_checking", bfs: None },
-        "exhaustive configuration enumeration: {no flag, -f stack, --features stack, --features=, the list forms `,stack` `stack,` `,,stack` `,`} x sources using each of push/pop/call/rets as instruction (three letter cases), in label position and as a label operand; sources and .lc3 images with raw xD words of all four sub-kinds reached at run time (and present but never reached), and programs that synthesise such a word at run time (it is not in the image); 8 seed programs without the extension - through `lace compile`, `lace run`, the bare-path form `lace FILE` and `lace debug FILE --command quit` of the real binary (the latter two must behave like `run`): without the flag the diagnostic must name the feature and opcode xD must exit with status 1 having executed only what precedes it, with it the programs assemble and run as the reference machine says. In-process: a corpus of programs without the four mnemonics (E1 single statements, E2 label placements, .fill sweep) and the C03 templates without opcode xD, assembled / run under BOTH flag values and compared with the flag-independent reference. non-trivial = agreeing cases",
+        "exhaustive configuration enumeration: {no flag, -f stack, --features stack, --features=, the list forms `,stack` `stack,` `,,stack` `,`} x sources using each of push/pop/call/rets as instruction (three letter cases), in label position and as a label operand; sources and .lc3 images with raw xD words of all four sub-kinds reached at run time (and present but never reached), and programs that synthesise such a word at run time (it is not in the image); 8 seed programs without the extension - through `lace compile`, `lace run`, the bare-path form `lace FILE` and `lace debug FILE --command quit` of the real binary (the latter two must behave like `run`): without the flag the diagnostic must name the feature and opcode xD must exit with status 1 having executed only what precedes it, with it the programs assemble and run as the reference machine says. In-process: machines with different flag values one after the other in one process (both orders); a corpus of programs without the four mnemonics (E1 single statements, E2 label placements, .fill sweep) and the C03 templates without opcode xD, assembled / run under BOTH flag values and compared with the flag-independent reference. non-trivial = agreeing cases",
         true,
         &["rejected-with-feature-diagnostic", "opcode-xD-gated-at-run-time", "extension-executes-with-flag", "corpus-image-flag-independent", "run-flag-independent"],
         &["reference image and machine are flag-independent for programs that avoid the extension"],
